@@ -426,7 +426,8 @@ class ReaderToSearcher(object):
     describe = ('the modification time the REAL FileReader reports for a source file handed to the real PyFileSearcher / '
                 'AnyFileSearcher / PyPackageSearcher over a destination holding a transformed copy; source and copy times with '
                 'sub-second parts (x.00, x.25, x.75) one second apart, in the same second, and equal; the source a plain file, a '
-                'symbolic link made 100 s before / after the text was last written, a hard link, a file in a linked directory: up '
+                'symbolic link made 100 s before / after the text was last written, a hard link, a file in a linked directory, a member of '
+                'an archive, of an archive inside an archive packed 100 s before / after: up '
                 'to date exactly when the copy is not older than the TEXT')
 
     def blocks(self, tier):
@@ -438,6 +439,11 @@ class ReaderToSearcher(object):
                 for dfrac in (0.0, 0.25, 0.75):
                     for layout in ('plain', 'link-made-earlier', 'link-made-later', 'hard-link', 'directory-link'):
                         yield {'kind': block['kind'], 'sfrac': sfrac, 'dsec': dsec, 'dfrac': dfrac, 'layout': layout}
+                    if sfrac == 0.0:
+                        # the text is a member of an archive, or of an archive inside the archive that was packed 100 s before /
+                        # after the text was written (archive stamps have whole, even seconds)
+                        for layout in ('zip-member', 'zip-nested-packed-earlier', 'zip-nested-packed-later'):
+                            yield {'kind': block['kind'], 'sfrac': sfrac, 'dsec': dsec, 'dfrac': dfrac, 'layout': layout}
 
     def run_case(self, case):
         from pysmi.reader.localfile import FileReader
@@ -450,6 +456,59 @@ class ReaderToSearcher(object):
             sp = os.path.join(src, 'FOO-MIB.mib')
             layout = case.get('layout', 'plain')
             st = SRC_MTIME + case['sfrac']
+            if layout.startswith('zip'):
+                import datetime
+                import io
+                import time
+                import zipfile
+                from pysmi.reader.zipreader import ZipReader
+
+                def dos(t):
+                    return time.localtime(t)[:6]
+                inner = io.BytesIO()
+                with zipfile.ZipFile(inner, 'w') as z:
+                    z.writestr(zipfile.ZipInfo('FOO-MIB.mib', date_time=dos(st)), 'FOO-MIB DEFINITIONS ::= BEGIN END\n')
+                blob = inner.getvalue()
+                if layout != 'zip-member':
+                    outer = io.BytesIO()
+                    with zipfile.ZipFile(outer, 'w') as z:
+                        z.writestr(zipfile.ZipInfo('vendor.zip', date_time=dos(st + (-100 if layout.endswith('earlier') else 100))), blob)
+                    blob = outer.getvalue()
+                zp = os.path.join(src, 'mibs.zip')
+                with open(zp, 'wb') as f:
+                    f.write(blob)
+                ext = '.json' if case['kind'] == 'any' else '.py'
+                dp = os.path.join(dst, 'FOO-MIB' + ext)
+                with open(dp, 'w') as f:
+                    f.write('x')
+                dt = SRC_MTIME + case['dsec'] + case['dfrac']
+                os.utime(dp, (dt, dt))
+                info, text = ZipReader(zp).getData('FOO-MIB')
+                if case['kind'] == 'any':
+                    s = AnyFileSearcher(dst).setOptions(exts=['.json'])
+                elif case['kind'] == 'py':
+                    s = PyFileSearcher(dst)
+                else:
+                    with open(os.path.join(dst, '__init__.py'), 'w') as f:
+                        f.write('')
+                    pkgname = os.path.basename(dst)
+                    sys.path.insert(0, os.path.dirname(dst))
+                    s = PyPackageSearcher(pkgname)
+                try:
+                    r = s.fileExists('FOO-MIB', info.mtime)
+                    got = 'return:%r' % (r,)
+                except error.PySmiFileNotModifiedError:
+                    got = 'not-modified'
+                except error.PySmiFileNotFoundError:
+                    got = 'not-found'
+                except Exception as exc:
+                    got = 'foreign:%s' % type(exc).__name__
+                want = 'not-modified' if os.stat(dp).st_mtime >= st else 'not-found'
+                vs = []
+                if got != want:
+                    vs.append(('C10|reader-to-searcher|%s|answered-%s-where-%s|%s' % (case['kind'], got, want, layout),
+                               'member stamp %r (reader reports %r), copy mtime %r' % (st, info.mtime, dt)))
+                return got, vs, 1
             if layout == 'plain':
                 real = sp
             else:
